@@ -48,13 +48,17 @@ type Server struct {
 	// faults: return non-nil to fail the n-th (1-based) write request / read / list / scan on a shard before applying it
 	WriteFault func(shard int64, n int) error
 	ReadFault  func(shard int64, n int) error
+	// WriteStall: the n-th write request on a shard is answered (normally, in order) only after this long
+	WriteStall func(shard int64, n int) time.Duration
 	// ReadFaultMid: like ReadFault, but consulted after the first chunk of the answer has been sent
 	ReadFaultMid func(shard int64, n int) error
 	ScanFault    func(shard int64, kind string) error
 	Delay        func(shard int64) time.Duration
 	ChunkSize    func() int
-	Batches      []int // sizes of the write requests received
-	ReadBatches  []int
+	// EmptyFirstChunk: the answer stream of a list / range-scan on that shard begins with a message without entries
+	EmptyFirstChunk func(shard int64) bool
+	Batches         []int // sizes of the write requests received
+	ReadBatches     []int
 }
 
 func Vid(parts ...string) int64 {
@@ -218,8 +222,14 @@ func (s *Server) WriteStream(stream proto.OxiaClient_WriteStreamServer) error {
 		s.writeN[shard]++
 		n := s.writeN[shard]
 		f := s.WriteFault
+		stall := s.WriteStall
 		s.mu.Unlock()
 		s.delay(shard)
+		if stall != nil {
+			if d := stall(shard, n); d > 0 {
+				time.Sleep(d)
+			}
+		}
 		if f != nil {
 			if ferr := f(shard, n); ferr != nil {
 				return ferr
@@ -351,6 +361,11 @@ func (s *Server) List(req *proto.ListRequest, stream proto.OxiaClient_ListServer
 			return err
 		}
 	}
+	if s.EmptyFirstChunk != nil && s.EmptyFirstChunk(shard) {
+		if err := stream.Send(&proto.ListResponse{}); err != nil {
+			return err
+		}
+	}
 	for i := 0; i < len(keys); i += chunk {
 		j := min(i+chunk, len(keys))
 		if err := stream.Send(&proto.ListResponse{Keys: keys[i:j]}); err != nil {
@@ -373,6 +388,11 @@ func (s *Server) RangeScan(req *proto.RangeScanRequest, stream proto.OxiaClient_
 	if s.ScanFault != nil {
 		if ferr = s.ScanFault(shard, "scan"); ferr != nil {
 			keys = keys[:len(keys)/2]
+		}
+	}
+	if s.EmptyFirstChunk != nil && s.EmptyFirstChunk(shard) {
+		if err := stream.Send(&proto.RangeScanResponse{}); err != nil {
+			return err
 		}
 	}
 	for i := 0; i < len(keys); i += chunk {
